@@ -61,11 +61,23 @@ Theorem C11_remove_active_player_falls_back : forall now h c dn p,
 Proof. exact remove_active_player. Qed.
 Print Assumptions C11_remove_active_player_falls_back.
 
-(* Whenever a message changes what is reported, the listener is woken by that message. *)
+(* Whenever a message changes what is reported, the listener is woken by that message - and
+   it is woken while the manager already is in the state reached after the message
+   ([step_w] carries the state during the call of state_updated()): a listener that reads
+   metadata.playing() inside state_updated(), as MrpPushUpdater does, sees the NEW report. *)
 Theorem C11_wake_complete : forall now h m,
-  observe now (run (h ++ [m])) <> observe now (run h) -> snd (step (run h) m) = true.
-Proof. exact wake_complete. Qed.
+  observe now (run (h ++ [m])) <> observe now (run h) ->
+  snd (step_w (run h) m) = Some (run (h ++ [m])) /\ snd (step (run h) m) = true.
+Proof. intros now h m H. split; [exact (wake_complete_w now h m H)|exact (wake_complete now h m H)]. Qed.
 Print Assumptions C11_wake_complete.
+
+(* Every wake-up (also one that changes nothing) is the handler's last action: the state the
+   listener runs in is the state after the message, so what it reads is never stale. *)
+Theorem C11_wake_sees_final_state : forall now h m sw,
+  snd (step_w (run h) m) = Some sw ->
+  sw = run (h ++ [m]) /\ observe now sw = observe now (run (h ++ [m])).
+Proof. intros now h m sw W. apply wake_sees_final in W. subst sw. split; reflexivity. Qed.
+Print Assumptions C11_wake_sees_final_state.
 
 (* The reported position is never negative, and never beyond a positive total time. *)
 Theorem C11_position_clamped : forall now h p,
@@ -166,5 +178,7 @@ Definition old_wake_witness : list msg :=
   [ SetNowPlayingClient 1%N 0%N; SetState 1%N 0%N 1%N (Some 1%N) None (Some ([song 1], 0%N)) ].
 Example C11_ex_default_player_removed :
   observe 100 (run (old_wake_witness ++ [RemovePlayer 1%N 0%N 1%N])) <> observe 100 (run old_wake_witness) /\
-  snd (step (run old_wake_witness) (RemovePlayer 1%N 0%N 1%N)) = true.
-Proof. split; [intro H; vm_compute in H; discriminate|vm_compute; reflexivity]. Qed.
+  snd (step (run old_wake_witness) (RemovePlayer 1%N 0%N 1%N)) = true /\
+  snd (step_w (run old_wake_witness) (RemovePlayer 1%N 0%N 1%N)) =
+    Some (run (old_wake_witness ++ [RemovePlayer 1%N 0%N 1%N])).
+Proof. split; [intro H; vm_compute in H; discriminate|split; vm_compute; reflexivity]. Qed.
